@@ -116,6 +116,8 @@ def finding_matches(f, prop, contract, rec):
         return False  # findings about monitor inputs never excuse a refuted verification condition
     if f.get("contract") and f["contract"] != contract:
         return False
+    if f.get("contract_prefix") and not contract.startswith(f["contract_prefix"]):
+        return False
     if f["clause"] != rec.get("clause"):
         return False
     sigs = f.get("path_signatures")
